@@ -10,14 +10,14 @@ Definition csv_claim (fx : bool) (guard : list (path * nat) -> Prop) : Prop :=
   forall (V cell : Type) (fmt : V -> cell) (parse : cell -> V) (add : V -> V -> V),
     (forall v, parse (fmt v) = v) ->
     forall (Ws : list (path * nat)) (tps : list path) (rows : list (srow V)),
-      shape_ok Ws -> names_injective tps Ws -> guard Ws -> rows_ok Ws rows ->
+      shape_ok Ws -> (all_flat Ws -> names_injective tps Ws) -> guard Ws -> rows_ok Ws rows ->
       res_bind (csv_roundtrip fmt parse add fx tps Ws (from_lists fx Ws rows)) (observe tps Ws) = Ok (expected rows).
 
 Definition summary_claim (fx drop0 : bool) (guard : list (path * nat) -> Prop) : Prop :=
   forall (V cell : Type) (fmt : V -> cell) (parse : cell -> V) (is_zero : V -> bool),
     (forall v, parse (fmt v) = v) ->
     forall (Ws : list (path * nat)) (tps : list path) (r : srow V),
-      shape_ok Ws -> names_injective tps Ws -> guard Ws -> List.length (r_params r) = List.length (pids Ws) ->
+      shape_ok Ws -> (all_flat Ws -> names_injective tps Ws) -> guard Ws -> List.length (r_params r) = List.length (pids Ws) ->
       no_zero is_zero drop0 r ->
       let s := json_roundtrip fmt parse is_zero fx drop0 (from_row fx Ws r) in
       param_list tps Ws s = Ok (r_params r) /\ s_ll s = r_ll r /\ s_lp s = r_lp r /\ s_w s = r_w r.
